@@ -1003,7 +1003,7 @@ Theorem compare_skips r :
      merge = true /\ exists k e, last_ent l10n k e /\ c_id e = id).
 Proof.
   intros Hid H. unfold Compare.compare in H.
-  destruct (run_skips _ _ r Hid (steps_NoDup kr kl) (NoDup_nil _)
+  destruct (run_skips steps (notes_only dup_notes) r Hid (steps_NoDup kr kl) (NoDup_nil _)
                       (fun id (Hf : In id []) => match Hf with end) H) as [H1 H2].
   split; [exact H1|]. intros id Hin. destruct (H2 id Hin) as (Hm & k & e & He & Hi).
   split; [exact Hm|]. exists k, e. split; [apply last_ent_iff; exact He|exact Hi].
